@@ -18,6 +18,7 @@ type pump struct {
 	bytes      int64
 	tiny       int                     // deliveries of < 8 bytes
 	capReads   bool                    // also draw a bound on what a single Read returns
+	runaway    bool                    // a settle did not terminate (see maxSettleSteps)
 	hook       func(l *SimLink, d int) // optional man-in-the-middle hook, called before a delivery of (l,d)
 	// gate, if set, bounds how many in-flight bytes of (l,d) may be delivered
 	// now (0 = hold everything back for the moment).
@@ -134,9 +135,19 @@ func (p *pump) settle() int {
 	n := 0
 	for p.step() {
 		n++
+		if n >= maxSettleSteps {
+			// traffic that never stops although no virtual time passes: the
+			// code under test is answering itself in a loop
+			p.runaway = true
+			break
+		}
 	}
 	return n
 }
+
+// maxSettleSteps bounds one settle; a correct connection pair needs a few
+// thousand deliveries at most to quiesce (budgeted tiny chunks, then whole ones).
+const maxSettleSteps = 200000
 
 // parkedWriters reports how many writers are parked for space on any link.
 func (p *pump) parkedWriters() int {
